@@ -5,6 +5,7 @@ import (
 	"bytes"
 	"fmt"
 	"io"
+	"strings"
 
 	fflate "github.com/intel/fastgo/compress/flate"
 	fgzip "github.com/intel/fastgo/compress/gzip"
@@ -21,7 +22,7 @@ func init() {
 	register(&Prop{
 		ID:       "C13",
 		Category: "model_checking",
-		Rule: "first life: a stream in {70 KB text, 300 B, a stream ending in a corrupt-input error, a truncated stream, streams cut inside a dynamic header / inside a stored block's length field / inside its payload, a 70 KB stored stream} x read history in {nothing read, 1 byte, 10 bytes, all but the last byte, to the end/error, exactly 65535 / 65536 bytes (output window full)} x Read size {1 MiB, 7}; then Reset(second source [, dictionary]); " +
+		Rule: "first life: a stream in {70 KB text, 300 B, a stream ending in a corrupt-input error, a truncated stream, streams cut inside a dynamic header / inside a stored block's length field / inside its payload, a 70 KB stored stream, every stream of the C03 fault catalogue read to its error} x read history in {nothing read, 1 byte, 10 bytes, all but the last byte, to the end/error, exactly 65535 / 65536 bytes (output window full)} x Read size {1 MiB, 7}; then Reset(second source [, dictionary]); " +
 			"second life: every stream of the short corpus, malformed streams whose back-references reach 1, 2, 100 and 32768 bytes before their own start, containers of the same kind, and for zlib every combination {first stream with/without dictionary} x {second with/without}; flate, gzip (also member stepping), zlib; second source plain, a 64-byte bufio, one byte per call, or one byte per call through a 16-byte bufio; " +
 			"oracle: bytes and kind of error of the second life identical to a fresh Reader on the same input; non-trivial = the first life decoded at least one byte",
 		Assumptions: []string{"a freshly constructed Reader is the reference model"},
@@ -80,6 +81,13 @@ func c13Harness(cfg *Cfg) func(x *mc.Exec) {
 		// inside a stored block (remaining length), inside the stored length field
 		{"cut-inside-dynamic-header", s70[:10], nil}, {"cut-inside-dynamic-header-40", s70[:40], nil}, {"stored-70K", stored70, nil},
 		{"cut-inside-stored-length", stored70[:3], nil}, {"cut-inside-stored-payload", stored70[:1000], nil}}
+	// first lives that end in every kind of rejected header/symbol (the fault catalogue of C03, first-block and
+	// after-a-fixed-block positions): whatever a rejected block left half-built must not survive Reset
+	for _, f := range singleFaults() {
+		if strings.HasSuffix(f.name, " bare") {
+			firstFlate = append(firstFlate, c13life{"fault:" + strings.TrimSuffix(f.name, " bare"), f.stream, nil})
+		}
+	}
 	var secondFlate []namedStream
 	secondFlate = append(secondFlate, shortCorpus(g)...)
 	secondFlate = append(secondFlate, backrefStreams()...)
@@ -162,6 +170,9 @@ func c13Harness(cfg *Cfg) func(x *mc.Exec) {
 		case 0: // flate
 			f1 := firstFlate[x.Choose(len(firstFlate), "first")]
 			s2 := secondFlate[x.Choose(len(secondFlate), "second")]
+			if strings.HasPrefix(f1.name, "fault:") && (hist != 4 || viaBufio > 1) {
+				return // the fault first lives are read to their error, second source plain or bufio
+			}
 			var r io.Reader
 			if pi := Guard(func() {
 				r = fflate.NewReader(env.NewSource(f1.stream))
